@@ -51,6 +51,7 @@ func (r *RateLimitedTokenRequest) Marshal() []byte {
 }
 
 func (r *RateLimitedTokenRequest) Unmarshal(data []byte) bool {
+	r.raw = nil
 	s := cryptobyte.String(data)
 
 	var tokenType uint16
